@@ -375,11 +375,19 @@ def with_missing(scen, pos):
 def units(tier):
     us = []
     for sc in scenarios(tier):
-        us.append({"name": "scen:" + sc["name"], "scen": sc, "cost": 5 if len(sc["request"]) > 3 else 1})
-        for pos in range(len(sc["request"])):
-            if len(sc["request"]) > 3 and pos not in (0, 4, 5):
+        n = len(sc["request"])
+        us.append({"name": "scen:" + sc["name"], "scen": sc, "cost": 5 if n > 3 else 1})
+        for pos in range(n):
+            if n > 3 and pos not in (0, 4, 5):
                 continue
             m = with_missing(sc, pos)
+            us.append({"name": "scen:" + m["name"], "scen": m, "notfound": True, "cost": 1})
+        # two not-found objects in one request (second deviation of the same kind)
+        pairs = [(i, j) for i in range(n) for j in range(i + 1, n)]
+        if n > 3:
+            pairs = [(0, 1), (0, 5), (4, 5), (1, 4)]
+        for i, j in pairs:
+            m = with_missing(with_missing(sc, i), j)
             us.append({"name": "scen:" + m["name"], "scen": m, "notfound": True, "cost": 1})
     return us
 
